@@ -48,8 +48,8 @@ ENTRIES = {
         "text": "Monitor clauses (spec/HxClientProp.tla): at most 3 sends per request, each to a connected peer, the "
                 "third to an archival peer, none for cancelled/answered callers or after stop; at most one answer; "
                 "Ok carries the only valid response delivered; an error before stop is the error of the last attempt, "
-                "that attempt went to an archival peer and no valid response was ignored; on stop every waiting caller "
-                "is answered; at quiescence an unanswered request implies no connected peer of the kind its next "
+                "that attempt went to an archival peer and no valid response was ignored; once stopped and polled every waiting "
+                "caller is answered; at quiescence an unanswered request implies no connected peer of the kind its next "
                 "attempt needs. TLC checks the handler model against them exhaustively (1 request x 2 peers x every "
                 "outcome sequence over {valid, invalid, not-found, failure} x churn/cancel/stop interleavings), "
                 "TLC-simulated behaviours (3 requests, 3 peers) are replayed on the real handler, and the observed "
@@ -62,7 +62,7 @@ ENTRIES = {
     },
 }
 
-C31_CLAUSES = {"head-request-to-untrusted-peer", "head-error-without-stop", "head-answer-after-stop",
+C31_CLAUSES = {"head-request-to-untrusted-peer", "head-answer-after-stop",
                "head-answer-before-round-complete", "head-answer-violates-best-head-rule",
                "head-callers-got-different-answers", "waiting-head-caller-not-answered"}
 
